@@ -22,12 +22,33 @@ CHECKS = {
         note="Relative to: the abstract Storage contract (assumed), query meaning axioms, set-cardinality facts, two pigeonhole lemma instances in Index.update, pyvc's encoding, z3/cvc5. I/O failures are out of scope here (C13).",
         design_ref="DESIGN.md 5 (C02), 12",
     ),
+    "C03": dict(
+        category="proof",
+        technique="contract-based deductive verification (pyvc): whole-view postcondition of _update_helper/update/update_all over an abstract per-point update function; merge semantics of perform_update by the bounded stand-in",
+        text="_update_helper, update and update_all (real decorator wrappers inlined) are proved, on the index path and the scan path, to rewrite exactly the selected points that actually change (items'[i] decodes to upd(point i) for those, every other item untouched, length and order kept), to return their number, to leave storage untouched when nothing changes, and on a raising callable / late validation error to leave primary storage untouched with temporary storage discarded (after fix f45b108). The per-point function (perform_update: replace time/measurement, merge tags/fields key-by-key, unset last) is an interface contract here; its documented merge semantics are checked only by the bounded differential stand-in.",
+        note="Relative to: the interface contract of _generate_updater/perform_update (not proved against their bodies), the abstract Storage contract, query meaning axioms, counting lemmas (proved by induction), pyvc's encoding, z3/cvc5. MemoryStorage's in-place update (KF-18) is outside the Storage contract.",
+        design_ref="DESIGN.md 5 (C03), 12",
+    ),
     "C06": dict(
         category="proof",
         technique="contract-based deductive verification (pyvc): representation invariant Repr(index, view) proved preserved by every Index mutator; database-level clauses by a labelled bounded stand-in",
         text="The data-structure invariant Repr (DESIGN 3.4: every answer the index can give is a function of the storage view alone, i.e. equals that of a rebuilt index) is proved established by Index.__init__/_reset/build and preserved by insert, remove+update and their 15 helpers, for all index states, all points and all removal sets, with loop invariants (no bound). The database-level clauses (validity flag handling in TinyFlux) are not yet under contract and are served by the bounded differential stand-in, which also compares the live index with a rebuilt one after every step.",
         note="Trusted: pyvc's encoding of Python semantics, z3/cvc5, the assumed contract of list.sort (stable permutation), two assumed pigeonhole lemma instances in Index.update, ownership of the index containers (A-alias). TinyFlux-level code (database.py) is covered only by the bounded stand-in in this round.",
         design_ref="DESIGN.md 3.4, 5 (C06), 12",
+    ),
+    "C10": dict(
+        category="proof",
+        technique="contract-based deductive verification (pyvc): each Measurement forwarder is verified against the callee's contract with measurement = self._name (arguments bound to the callee's real signature); remaining forwarders by bounded stand-in",
+        text="Measurement.count/contains/get/search/remove/remove_all are proved to have exactly the postcondition of the database operation with the filter set to the handle's name - a forwarder that drops the filter, swaps arguments or forwards to the wrong operation fails its obligation; the callee contracts (count, contains, remove, drop_measurement, insert with its name override) are in the cone. select/update/update_all/insert forwarders and the per-measurement getters are served by the bounded stand-in.",
+        note="Relative to the trusted base of C01/C02. KF-19 (name '' treated as no filter) is a recorded finding witnessed by the stand-in.",
+        design_ref="DESIGN.md 5 (C10), 12",
+    ),
+    "C11": dict(
+        category="proof",
+        technique="contract-based deductive verification (pyvc): exceptional postconditions (raises clauses) on insert/insert_multiple/_insert_helper and update/update_all/_update_helper, with exception edges at every raising site; bounded stand-in alongside",
+        text="For the insert path: a non-Point at any position raises TypeError with storage = old contents + the normalised points before it and the database invariant intact (index extended, invalidated, or - after fix aeabb02 - invalidated on the abort). For the update path: ill-typed static arguments are rejected before any effect (interface contract), and an exception from the per-point update at any selected position leaves primary storage and index untouched with the temporary storage discarded (after fix f45b108). Proved for all positions of the offending element (arbitrary loop iteration), both index and scan branches.",
+        note="Relative to: interface contract of _generate_updater/perform_update, abstract Storage contract (non-aliasing: KF-18 records MemoryStorage's in-place mutation as a known finding, witnessed by the stand-in), pyvc's encoding, z3/cvc5. remove()/select() raising paths: only can_read/can_write gates are modelled.",
+        design_ref="DESIGN.md 5 (C11), 12",
     ),
 }
 NOT_APPLICABLE = {p: WIP for p in ["C%02d" % i for i in range(1, 18)] if p not in CHECKS}
